@@ -170,6 +170,12 @@ package parse
 //@   assert @mapupdate:map[string]*sysl.Endpoint [endpoint-created-only-when-absent] !in(mapkey, maptarget) || maptarget[mapkey] == nil
 //@   assert @mapupdate:map[string]*sysl.Type [type-created-only-when-absent] !in(mapkey, maptarget)
 
+// A subscription records its call on the event endpoint that the publisher's Endpoints map holds under the event's
+// name (creating application and endpoint only when absent), never on a detached endpoint.
+//@ func (*TreeShapeListener).EnterSubscribe
+//@   maypanic
+//@   assert @store:F.sysl.Endpoint.Stmt [call-recorded-on-the-published-event] len(stored) > 0 ==> in(eventName, srcApp.Endpoints) && target == srcApp.Endpoints[eventName]
+
 // At return the REST endpoint just (re)declared carries, as its current location and as the last entry of its
 // location list, the start of this method rule — whatever the verb.
 //@ func (*TreeShapeListener).EnterMethod_def
@@ -205,6 +211,7 @@ package parse
 //@   assert @store:F.sysl.Type.Attrs [attrs-move-to-wrapper] ite(fresh(target), stored == s.currentType().Attrs, stored == nil)
 //@   ensures [element-loses-optionality-on-every-path] !result0.Opt
 //@   ensures [wrapper-keeps-the-optionality] result1.Opt == old(s.currentType().Opt)
+//@   ensures [wrapper-inherits-every-recorded-location] result1.SourceContexts == old(s.currentType().SourceContexts) && result1.SourceContext == old(s.currentType().SourceContext)
 
 // int32 / int64 / float32 / float64 are INT / FLOAT with the bit width (and, for integers, the value range) of the name.
 //@ spec upperName(native iface) string = strings.ToUpper(native.GetText())
